@@ -51,7 +51,7 @@ package client
 //@   ensures[C19.s] err != nil ==> b == nil
 //@   // at most one request, sent with the context the fetcher was built with (so that it ends when the feed cycle does)
 //@   ensures[C19.ctx,C13.ctx] n_do <= old(n_do) + 1 && (n_do == old(n_do) + 1 ==> do_ctx == f.ctx && do_method == "GET")
-//@   ensures[C19.ctx,C13.ctx] f.ctx != noCtx() ==> n_noctx == old(n_noctx)
+//@   ensures[C19.ctx,C13.ctx] f.ctx != noCtx() && f.ctx != todoCtx() ==> n_noctx == old(n_noctx)
 
 // Both constructors install an HTTP fetcher bound to a context: the given one, or the background context.
 //@ func NewSumDBWithContext
